@@ -146,13 +146,15 @@ NAME_STYLES = [
     None,                                                                                   # a, b, c, ...
     ["a", "a1", "ab", "a10", "b", "a_b", "b1", "a-1", "ba", "b-a", "a2", "b_", "aa"],        # names sharing prefixes
     ["Top1", "not", "signature1", "x", "and", "Bottom_", "or", "conditional", "T", "F", "in", "eta_1", "True"],   # keyword-like names
+    ["h1", "h2", "h3", "h0", "x1", "k1", "e1", "s1", "x2", "h10", "v1", "c1", "y0"],          # letter + small index (names an
+                                                                                            # implementation might also form from keys)
 ]
 
 
 def names_for(n: int):
     """atom names of a case with n atoms; the style depends on n only, so that every place (and every process) that names the
-    atoms of a case uses the same names: plain letters, names sharing prefixes, or names that look like keywords"""
-    style = NAME_STYLES[n % 3] if os.environ.get("VERIF_PLAIN_NAMES") != "1" else None
+    atoms of a case uses the same names: plain letters, names sharing prefixes, names that look like keywords, or a letter followed by a small index"""
+    style = NAME_STYLES[n % 4] if os.environ.get("VERIF_PLAIN_NAMES") != "1" else None
     if style is None or n > len(style):
         base = "abcdefghijklmnopqrstuvwxyz"
         return [base[i] if i < 26 else f"x{i}" for i in range(n)]
@@ -366,6 +368,148 @@ def gen_conj_case(rng: random.Random, n: int):
     return conds, queries
 
 
+def gen_cost_case(rng: random.Random, n: int):
+    """one 'wide' conditional (w1,..,wk | g) with k = 2..3 conjuncts (k soft clauses) next to 2-3 simple conditionals (s_i | g) over other
+    atoms, optionally an exception layer; queries are built from worlds given by a descriptor (how many conjuncts of the wide conditional
+    are false, which simple conditionals are falsified): antecedent = disjunction of 2-4 such complete worlds, consequent = exactly a
+    subset of them.  Templates put sets of different size and different clause cost on one side (size/cost inversion: {wide} costs k
+    clauses, {s1,s2} costs 2), or a set and its superset at equal clause cost ({wide} by two conjuncts vs {wide,s1} by one), so that any
+    confusion between number of violated clauses, number of falsified conditionals and set inclusion changes an answer;
+    n >= 5; returns (conds, queries)"""
+    atoms = list(range(n))
+    rng.shuffle(atoms)
+    g = ("a", atoms[0])
+    k = 3 if (n >= 6 and rng.random() < 0.65) else 2
+    fm = lambda x, pos: x if pos else ("!", x)                         # noqa: E731
+    wide_lits = [(("a", a), rng.random() < 0.8) for a in atoms[1:1 + k]]
+    others = [("a", a) for a in atoms[1 + k:]]
+    simples = [(x, rng.random() < 0.75) for x in others[:rng.choice([2, 2, 3])]]
+    if rng.random() < 0.35:
+        # a conditional subsumed by the wide one, (w1 | g): the two share a clause of their material implications
+        simples.insert(rng.randrange(len(simples) + 1), wide_lits[rng.randrange(k)])
+    wide = fm(*wide_lits[0])
+    for x, pos in wide_lits[1:]:
+        wide = ("&", wide, fm(x, pos))
+    gpos = rng.random() < 0.75
+    guard = fm(g, gpos) if rng.random() < 0.85 else ("T",)
+    conds = [(wide, guard)] + [(fm(x, pos), guard) for x, pos in simples]
+    free = [x for x in others if x not in [y for y, _ in simples]]
+    if free and rng.random() < 0.35:
+        # an upper layer: an exception to the first simple conditional
+        e = free[0]
+        conds.append((fm(simples[0][0], not simples[0][1]), ("&", guard, e) if guard != ("T",) else e))
+        if guard != ("T",):
+            conds.append((guard, e))
+    rng.shuffle(conds)
+
+    def world_fm(w):
+        f = None
+        for i, b in enumerate(w):
+            lit = ("a", i) if b else ("!", ("a", i))
+            f = lit if f is None else ("&", f, lit)
+        return f
+
+    def world(c, S):
+        """complete world: guard true, c conjuncts of the wide conditional false, the simple conditionals with index in S falsified"""
+        w = [rng.random() < 0.5 for _ in range(n)]
+        w[g[1]] = gpos
+        for x in free:
+            w[x[1]] = False            # exceptions off
+        bad = set(rng.sample(range(k), c))
+        for j, (x, pos) in enumerate(wide_lits):
+            w[x[1]] = (not pos) if j in bad else pos
+        for j, (x, pos) in enumerate(simples):
+            w[x[1]] = (not pos) if j in S else pos
+        return tuple(w)
+
+    m = len(simples)
+    queries = []
+    for _ in range(6):
+        r = rng.random()
+        two = rng.sample(range(m), 2)
+        one = {rng.randrange(m)}
+        if r < 0.25:
+            # size/cost inversion on one side, a size-2 set on the other
+            A = [world(k, set()), world(0, set(two))]
+            B = [rng.choice([world(rng.randint(1, k), one), world(0, set(rng.sample(range(m), 2)))])]
+        elif r < 0.5:
+            # a set and its superset at equal clause cost on one side, the superset also on the other
+            s1 = one
+            A = [world(2 if k >= 2 else 1, set()), world(1, s1)]
+            B = [world(rng.randint(1, k), s1)]
+        elif r < 0.65:
+            A = [world(rng.randint(0, k), set(rng.sample(range(m), rng.randint(0, m)))) for _ in range(2)]
+            B = [world(rng.randint(0, k), set(rng.sample(range(m), rng.randint(0, m)))) for _ in range(rng.choice([1, 2]))]
+        else:
+            A = [world(rng.randint(0, k), set(rng.sample(range(m), rng.randint(0, m))))]
+            B = [world(rng.randint(0, k), set(rng.sample(range(m), rng.randint(0, m)))) for _ in range(rng.choice([1, 2, 3]))]
+        if rng.random() < 0.4:
+            A, B = B, A
+        A = list(dict.fromkeys(A))
+        B = [w for w in dict.fromkeys(B) if w not in A]
+        ws = A + B
+        ante = world_fm(ws[0])
+        for w in ws[1:]:
+            ante = ("|", ante, world_fm(w))
+        cons = world_fm(A[0])
+        for w in A[1:]:
+            cons = ("|", cons, world_fm(w))
+        queries.append((cons, ante))
+    return conds, queries
+
+
+def gen_infchain_case(rng: random.Random, n: int):
+    """extended mode: an infinity layer made of a chain -- a conditional that forbids x1 ((Bottom|x1), (!x1|x1), ...) and links
+    (x1|x2), (x2|x3) that make x2, x3 infeasible only THROUGH the other members -- listed in any order (also back to front), next to
+    ordinary conditionals over the other atoms; queries whose antecedent touches the chain only at its far end; n >= 3;
+    returns (conds, queries)"""
+    atoms = list(range(n))
+    rng.shuffle(atoms)
+    m = 2 if n < 5 or rng.random() < 0.5 else 3
+    xs = [("a", a) for a in atoms[:m]]
+    others = [("a", a) for a in atoms[m:]]
+    x1 = xs[0]
+    start = rng.choice([(("F",), x1), (("!", x1), x1), (("F",), x1), (("&", x1, ("!", x1)), x1)])
+    chain = [start]
+    for i in range(1, m):
+        link = (xs[i - 1], xs[i]) if rng.random() < 0.8 else (("&", xs[i - 1], others[0]) if others else xs[i - 1], xs[i])
+        chain.append(link)
+    fin = []
+    if others:
+        for _ in range(rng.randint(0, 3)):
+            c = gen_cond(rng, n, 1, 0.0)
+            fin.append(c)
+        if len(others) >= 2 and rng.random() < 0.6:
+            fin += [(others[1], others[0]), (("!", others[1]), ("&", others[0], others[-1]))] if len(others) >= 3 else [(others[1], others[0])]
+    r = rng.random()
+    if r < 0.45:
+        conds = list(reversed(chain)) + fin if rng.random() < 0.5 else fin + list(reversed(chain))
+        if rng.random() < 0.5:
+            conds = list(reversed(conds))
+    else:
+        conds = chain + fin
+        rng.shuffle(conds)
+    far = xs[-1]
+    o = (others + [far])
+    queries = []
+    for _ in range(6):
+        r = rng.random()
+        y = rng.choice(o)
+        if r < 0.3:
+            queries.append((rng.choice([y, ("!", y)]), far))
+        elif r < 0.45:
+            queries.append((("!", far), rng.choice([far, ("T",)])))
+        elif r < 0.6:
+            queries.append((rng.choice([y, ("!", y)]), ("&", far, rng.choice(o))))
+        elif r < 0.75:
+            queries.append((rng.choice([y, ("!", y), far]), ("|", far, rng.choice(o))))
+        elif r < 0.85:
+            queries.append((rng.choice([y, ("!", y)]), rng.choice(xs)))
+        else:
+            queries.append(gen_cond(rng, n, 2, 0.0))
+    return conds, queries
+
+
 def gen_flat_case(rng: random.Random, n: int):
     """independent defaults in one flat layer, (l_i|Top) or (l_i|guard): worlds violating different defaults have
     incomparable falsification sets, so one layer has several minimal correction sets; returns (conds, queries)"""
@@ -515,6 +659,18 @@ def impl_answers(names, keyed_base, keyed_queries, system, weakly=False, pmaxsat
         with warnings.catch_warnings():
             warnings.simplefilter("ignore")
             m = InferenceManager(bb, system, pmaxsat_solver=pmaxsat, weakly=weakly)
+            if inf_kw.pop("_shared", False) and keyed_queries:
+                # the very same Queries object (and its Conditional objects) has already been used: by another operator on a
+                # copy of the base, and as the conditionals of a belief base that went through the consistency test
+                from inference.belief_base import BeliefBase as _BB
+                from inference.consistency_sat import consistency as _cons
+
+                try:
+                    other = "system-z" if system != "system-z" else "p-entailment"
+                    InferenceManager(make_bb(names, keyed_base, sig=sig), other, weakly=weakly).inference(qs)
+                    _cons(_BB(list(names), dict(qs.conditionals), "shared"), weakly=True)
+                except Exception:  # noqa: BLE001  (what the earlier use does is not the concern of this call)
+                    pass
             if inf_kw.pop("_warmup", False) and keyed_queries:
                 # an earlier call on the same manager (its first query alone) must not change what the batch gets
                 m.inference(make_queries(names, keyed_queries[:1]))
